@@ -17,9 +17,23 @@ StructureOnly(d, f, t) ==
 
 InRange(d, p) == 0 <= p /\ p <= Len(d)
 
+(* What the structure flag tests in the code (content_between): from `f` it steps out of nodes while
+   nothing follows in them, then walks down first children, consuming one unit of t - f per level.
+   A position in the middle of a text node counts that text node as passed (index_after), so the walk
+   starts at the end of the text node: for such `f` the rest of the text node is treated as structure
+   (deviation from "only closes then opens", identical in upstream). *)
+MidText(d, f) == f >= 1 /\ f < Len(d) /\ d[f].k = "x" /\ d[f + 1].k = "x" /\ ~d[f + 1].b
+TextNodeEnd(d, f) == SetMax({j \in f..Len(d) : \A i \in (f + 1)..j : d[i].k = "x" /\ ~d[i].b})
+StructureOnlyImpl(d, f, t) ==
+  LET p0 == IF MidText(d, f) THEN TextNodeEnd(d, f) ELSE f
+      dist == t - f
+      k == SetMax({j \in 0..dist : j <= Depth(d, f) /\ p0 + j <= Len(d) /\ \A i \in 1..j : d[p0 + i].k = "c"})
+  IN \A i \in 1..(dist - k) : p0 + k + i <= Len(d) /\ d[p0 + k + i].k = "o"
+
 ApplyReplace(d, f, t, s) ==
   IF ~(InRange(d, f) /\ InRange(d, t) /\ f <= t) THEN Fail
   ELSE IF ~DepthsFit(d, f, t, s) THEN Fail
+  ELSE IF ~JoinsOK(d, f, t, s) THEN Fail
   ELSE LET sp == Splice(d, f, t, s) IN IF Valid(sp) THEN [ok |-> TRUE, doc |-> sp] ELSE Fail
 
 (* slice with the gap content inserted at inner offset `insert` *)
@@ -57,12 +71,12 @@ AttrValue(n, a, v) ==
 Apply(st, d, ra) ==
   CASE st.type = "replace" ->
          IF st.structure /\ InRange(d, st.from) /\ InRange(d, st.to) /\ st.from <= st.to
-            /\ ~StructureOnly(d, st.from, st.to) THEN Fail
+            /\ ~StructureOnlyImpl(d, st.from, st.to) THEN Fail
          ELSE LET r == ApplyReplace(d, st.from, st.to, st.slice) IN IF r.ok THEN Ok(r.doc, ra) ELSE Fail
     [] st.type = "replaceAround" ->
          IF ~(InRange(d, st.from) /\ InRange(d, st.to) /\ st.from <= st.gapFrom /\ st.gapFrom <= st.gapTo
               /\ st.gapTo <= st.to) THEN Fail
-         ELSE IF st.structure /\ (~StructureOnly(d, st.from, st.gapFrom) \/ ~StructureOnly(d, st.gapTo, st.to)) THEN Fail
+         ELSE IF st.structure /\ (~StructureOnlyImpl(d, st.from, st.gapFrom) \/ ~StructureOnlyImpl(d, st.gapTo, st.to)) THEN Fail
          ELSE IF ~FlatRange(d, st.gapFrom, st.gapTo) THEN Fail
          ELSE IF st.insert < 0 \/ st.insert > SliceSize(st.slice) THEN Fail
          ELSE LET r == ApplyReplace(d, st.from, st.to,
